@@ -299,6 +299,10 @@ func checkC14(c *Check) {
 	}
 	// what a check writes into its answer reaches only the user agent of that check
 	responseFreshPerCheck(c, "C14.R2", R)
+	// the OK writer forwards what the matched filter configures: the handler is the filter's own
+	if pc := processInvoke(P, R); c.Anchor("C14.R2", "Handler.Process invocation in Check", pc != nil) {
+		handlerBuiltPerCheck(c, "C14.R2", R.CheckEntry, pc)
+	}
 	type sink struct {
 		v     ssa.Value
 		what  string
